@@ -622,7 +622,20 @@ class Interp:
             return len(v.items) > 0 if isinstance(v.items, list) else v.items.n > 0
         if isinstance(v, DictCell):
             return v.d.n > 0
-        if isinstance(v, (SObj, SPath, SStr)):
+        if isinstance(v, SObj):
+            # an instance is truthy unless its class says otherwise: for a class that defines __bool__/__len__, and for an
+            # abstract interface whose implementation the user supplies (it may define them), the truth value is unknown
+            cls = v.cls if isinstance(v.cls, type) else None
+            unknown = False
+            if cls is not None:
+                unknown = inspect.isabstract(cls) or any(
+                    ("__bool__" in vars(k) or "__len__" in vars(k)) for k in cls.__mro__ if k is not object)
+            if not unknown:
+                return True
+            if "_truth" not in v.f:
+                v.f["_truth"] = z3.Bool(f"truth!{v.name if hasattr(v, 'name') else 'obj'}!{next(self.ctx._n)}")
+            return v.f["_truth"]
+        if isinstance(v, (SPath, SStr)):
             return True
         if isinstance(v, Opaque):
             raise Unsupported(f"truth value of opaque {v!r}")
@@ -1828,7 +1841,7 @@ def heap_diff(old_roots, new_roots):
 
 
 _MISSING = object()
-GHOST_FIELDS = {"_options_tlv"}  # memo fields the stubs attach to library objects (not program state)
+GHOST_FIELDS = {"_options_tlv", "_truth"}  # memo fields the stubs attach to library objects (not program state)
 
 
 class LoopSpec:
